@@ -1511,12 +1511,38 @@ impl ArrayData {
                 let child = &self.child_data[0];
                 self.validate_offsets_full::<i64>(child.len)
             }
-            DataType::Union(_, _) => {
-                // Validate Union Array as part of implementing new Union semantics
-                // See comments in `ArrayData::validate()`
-                // https://github.com/apache/arrow-rs/issues/85
-                //
-                // TODO file follow on ticket for full union validation
+            DataType::Union(fields, mode) => {
+                // Every type id must be one of the declared ones and, for dense unions,
+                // every offset must be a valid index into the selected child
+                let len_plus_offset =
+                    checked_len_plus_offset(&self.data_type, self.len, self.offset)?;
+                let type_ids = &self.buffers[0].typed_data::<i8>()[self.offset..len_plus_offset];
+                let offsets = match mode {
+                    UnionMode::Dense => Some(
+                        &self.buffers[1].typed_data::<i32>()[self.offset..len_plus_offset],
+                    ),
+                    UnionMode::Sparse => None,
+                };
+                for (i, type_id) in type_ids.iter().enumerate() {
+                    let child = fields
+                        .iter()
+                        .position(|(id, _)| id == *type_id)
+                        .ok_or_else(|| {
+                            ArrowError::InvalidArgumentError(format!(
+                                "Type id {type_id} at position {i} is not one of the type ids of {}",
+                                self.data_type
+                            ))
+                        })?;
+                    if let Some(offsets) = offsets {
+                        let offset = offsets[i];
+                        if offset < 0 || offset as usize >= self.child_data[child].len {
+                            return Err(ArrowError::InvalidArgumentError(format!(
+                                "Offset {offset} at position {i} is out of bounds for child {child} of length {}",
+                                self.child_data[child].len
+                            )));
+                        }
+                    }
+                }
                 Ok(())
             }
             DataType::Dictionary(key_type, _value_type) => {
